@@ -16,5 +16,5 @@ pub mod tags {
         }
     }
     pub static STANDARD_HTML_TAGS: Set = Set(&["a", "div", "input", "p", "select", "span", "textarea"]);
-    pub static SVG_TAGS: Set = Set(&["circle", "g", "path", "svg"]);
+    pub static SVG_TAGS: Set = Set(&["circle", "clipPath", "g", "path", "svg"]);
 }
